@@ -256,6 +256,16 @@ func runC16(c *Ctx) error {
 			continue
 		}
 		fam2.Eval(p, false)
+		// the configuration is what the whole input says: a second YAML document after the valid one, holding an unknown
+		// key, must not be dropped silently
+		if b, merr := yaml.Marshal(docFor(kinds, p, leaf, -1)); merr == nil && (p == order[0] || p == order[len(order)/2] || p == order[len(order)-1]) {
+			two := string(b) + "---\nzzz_unknown_key: x\n"
+			_, terr := nfpm.ParseWithEnvMapping(strings.NewReader(two), func(string) string { return "" })
+			fam2.Eval(p+"|second-document", true)
+			if terr == nil {
+				c.Rep.Find(report.Finding{Property: "C16", Family: "strict", Shape: "second-document-ignored", What: "an input whose second YAML document holds an unknown key was accepted: everything after the first document is ignored silently", Input: map[string]any{"path": p, "document": two}})
+			}
+		}
 		if _, err := parse(docFor(kinds, p, leaf, docFilled), nil); err != nil {
 			c.Rep.Disagree(report.Disagreement{Family: "strict", What: "reflected key path with all scalar siblings set is not accepted by the parser", Input: map[string]any{"path": p}, Model: "accepted", Impl: err.Error()})
 			continue
@@ -267,6 +277,15 @@ func runC16(c *Ctx) error {
 			if err == nil {
 				b, _ := yaml.Marshal(doc)
 				c.Rep.Find(report.Finding{Property: "C16", Family: "strict", Shape: "unknown-key-accepted", What: "a document with an unknown key was accepted", Input: map[string]any{"path": p, "level": lvl, "document": string(b)}})
+			}
+			// the same place, the unknown key spelled as the YAML null (`~: x`): a key the parser does not define either
+			if b, merr := yaml.Marshal(doc); merr == nil && strings.Contains(string(b), "zzz_unknown_key:") {
+				nullDoc := strings.Replace(string(b), "zzz_unknown_key:", "~:", 1)
+				_, nerr := nfpm.ParseWithEnvMapping(strings.NewReader(nullDoc), func(string) string { return "" })
+				fam2.Eval(fmt.Sprintf("%s@%d|null-key", p, lvl), true)
+				if nerr == nil {
+					c.Rep.Find(report.Finding{Property: "C16", Family: "strict", Shape: "null-key-accepted", What: "a document with a key that is the YAML null (`~`) next to the defined keys was accepted: the key and everything below it is ignored silently", Input: map[string]any{"path": p, "level": lvl, "document": nullDoc}})
+				}
 			}
 		}
 	}
